@@ -437,4 +437,132 @@ func monC12(c *drv.Ctx) {
 		cs.C.Obs("messages round-tripped", 1)
 		cs.Count(true, "msg", method, seq, mt, fmt.Sprint(payload))
 	})
+	// (6) any payload struct: one of the application's own (not a library type) with its own encoder and decoder -
+	// a linked chain nested far deeper than the skippers' recursion limit, and large byte fields
+	c.Stage("foreign-payloads", c.Pick(300, 6000), false, func(cs *drv.Case) {
+		r := cs.R
+		depth := []int{1, 2, 63, 64, 65, 80, 200, 1000}[r.Intn(8)]
+		var head *chainNode
+		for k := 0; k < depth; k++ {
+			head = &chainNode{Val: gen.I32(r), Blob: gen.Bytes(r, []int{0, 3, 4095, 4096, 5000}[r.Intn(5)]*boolInt(k < 3)), Next: head}
+		}
+		method := "m" + string(gen.Bytes(r, r.Intn(9)))
+		seq := gen.I32(r)
+		mt := int32(1 + r.Intn(2)*1) // CALL or REPLY
+		cs.Desc = M{"payload": "application struct (linked chain)", "nesting": depth, "blength": head.BLength()}
+		b, err := thrift.MarshalFastMsg(method, thrift.TMessageType(mt), seq, head)
+		if err != nil {
+			cs.Fail("marshal-error", M{"payload": "foreign"}, M{"err": errString(err)})
+			return
+		}
+		if len(b) != thrift.Binary.MessageBeginLength(method)+head.BLength() {
+			cs.Fail("marshal-length", M{"payload": "foreign"}, M{"len": len(b), "want": thrift.Binary.MessageBeginLength(method) + head.BLength()})
+			return
+		}
+		got := &chainNode{}
+		gm, gs, err := thrift.UnmarshalFastMsg(place(b, 0), got)
+		if err != nil || gm != method || gs != seq || !got.equal(head) {
+			cs.Fail("message-roundtrip", M{"payload": "foreign"}, M{"err": errString(err), "method_ok": gm == method, "seq_ok": gs == seq, "nesting": depth,
+				"message": "a message whose payload is an application struct with its own codec did not come back as it was marshalled"})
+			return
+		}
+		if fm := thrift.FastMarshal(head); !bytes.Equal(fm, b[thrift.Binary.MessageBeginLength(method):]) {
+			cs.Fail("marshal-length", M{"payload": "foreign", "via": "FastMarshal"}, M{"message": "FastMarshal of the payload differs from the payload part of the message"})
+			return
+		}
+		back := &chainNode{}
+		if err := thrift.FastUnmarshal(b[thrift.Binary.MessageBeginLength(method):], back); err != nil || !back.equal(head) {
+			cs.Fail("message-roundtrip", M{"payload": "foreign", "via": "FastUnmarshal"}, M{"err": errString(err)})
+			return
+		}
+		cs.Count(true, "foreign", depth, method, seq)
+		cs.C.Obs("messages with an application-defined payload round-tripped", 1)
+	})
 }
+
+func boolInt(b bool) int {
+	if b {
+		return 1
+	}
+	return 0
+}
+
+// chainNode is a payload struct of the application with a hand-written codec: struct { 1: i32 val; 2: binary blob; 3: optional chainNode next }.
+type chainNode struct {
+	Val  int32
+	Blob []byte
+	Next *chainNode
+}
+
+func (n *chainNode) BLength() int {
+	l := 3 + 4 + 3 + 4 + len(n.Blob) + 1
+	if n.Next != nil {
+		l += 3 + n.Next.BLength()
+	}
+	return l
+}
+
+func (n *chainNode) FastWriteNocopy(b []byte, _ thrift.NocopyWriter) int {
+	out := ref.EncI32(ref.EncFieldBegin(b[:0], ref.I32, 1), n.Val)
+	out = ref.EncBinary(ref.EncFieldBegin(out, ref.STRING, 2), n.Blob)
+	off := len(out)
+	if n.Next != nil {
+		out = ref.EncFieldBegin(out, ref.STRUCT, 3)
+		off = len(out)
+		off += n.Next.FastWriteNocopy(b[off:], nil)
+	}
+	b[off] = 0
+	return off + 1
+}
+
+func (n *chainNode) FastRead(b []byte) (int, error) {
+	off := 0
+	for {
+		if off >= len(b) {
+			return off, errors.New("chainNode: truncated")
+		}
+		t := b[off]
+		off++
+		if t == 0 {
+			return off, nil
+		}
+		if off+2 > len(b) {
+			return off, errors.New("chainNode: truncated")
+		}
+		id := int(b[off])<<8 | int(b[off+1])
+		off += 2
+		switch {
+		case t == ref.I32 && id == 1 && off+4 <= len(b):
+			n.Val = int32(uint32(b[off])<<24 | uint32(b[off+1])<<16 | uint32(b[off+2])<<8 | uint32(b[off+3]))
+			off += 4
+		case t == ref.STRING && id == 2 && off+4 <= len(b):
+			l := int(uint32(b[off])<<24 | uint32(b[off+1])<<16 | uint32(b[off+2])<<8 | uint32(b[off+3]))
+			off += 4
+			if l < 0 || off+l > len(b) {
+				return off, errors.New("chainNode: bad blob")
+			}
+			n.Blob = append([]byte(nil), b[off:off+l]...)
+			off += l
+		case t == ref.STRUCT && id == 3:
+			n.Next = &chainNode{}
+			l, err := n.Next.FastRead(b[off:])
+			off += l
+			if err != nil {
+				return off, err
+			}
+		default:
+			return off, fmt.Errorf("chainNode: unexpected field (%d, %d)", t, id)
+		}
+	}
+}
+
+func (n *chainNode) equal(o *chainNode) bool {
+	for n != nil && o != nil {
+		if n.Val != o.Val || !bytes.Equal(n.Blob, o.Blob) {
+			return false
+		}
+		n, o = n.Next, o.Next
+	}
+	return n == nil && o == nil
+}
+
